@@ -207,7 +207,8 @@ fn lit_val(vals: &[[u64; 4]], lit: u64) -> Option<[u64; 4]> {
 // ---------------------------------------------------------------------------------------------
 
 enum Outcome {
-    Ok(AigOwned, Vec<(u64, Option<u64>)>),
+    /// (ordered result, literal map probes, `Aig::from(ordered)`)
+    Ok(AigOwned, Vec<(u64, Option<u64>)>, AigOwned),
     Err(&'static str, u64),
     Panic(String),
 }
@@ -233,7 +234,8 @@ fn renumber<L: Lit>(c: &Case, probe: &[u64]) -> Outcome {
                     (l, if map.contains_key(lit) { map.get(lit).map(|m| m.code() as u64) } else { None })
                 })
                 .collect();
-            Outcome::Ok(ordered_owned(&ordered), mapped)
+            let plain: Aig<L> = Aig::from(ordered.clone());
+            Outcome::Ok(ordered_owned(&ordered), mapped, drivers::aig_owned(&plain))
         }
     }
 }
@@ -312,7 +314,19 @@ pub fn check(c: &Case, obs: &mut Obs) -> CheckResult {
             obs.class("rejected-with-matching-error");
             return Ok(());
         }
-        Outcome::Ok(o, m) => (o, m),
+        Outcome::Ok(o, m, plain) => {
+            // `Aig::from(OrderedAig)` must make the implicit numbering explicit and change nothing else
+            let want = drivers::ordered_to_plain(&o);
+            if plain != want {
+                fail!(
+                    sig("from-ordered"),
+                    "Aig::from(ordered) is {:?}, expected the ordered AIG with explicit numbering {:?}",
+                    plain,
+                    want
+                );
+            }
+            (o, m)
+        }
     };
     if !c.defect.is_empty() {
         // accepted although a defect was injected: only admissible when the defect cannot matter
